@@ -27,6 +27,8 @@ pub trait Engine {
     /// does the type implement CvRDT
     const HAS_MERGE: bool = true;
     const HAS_RESET: bool = false;
+    /// do reads carry causal contexts (ReadCtx): Orswot, MVReg, Map
+    const HAS_CTX: bool = false;
 
     fn new_state() -> Self::S;
     /// run the command through the public API exactly as the README
@@ -80,6 +82,14 @@ pub trait Engine {
     }
     /// which property the type's read contents belong to (C04, C05, C06, ...)
     fn semantic_prop() -> &'static str;
+    /// properties a wrong API-built op (identifier, dot, context) is reported under
+    fn gen_op_props() -> Vec<&'static str> {
+        vec!["C07"]
+    }
+    /// the semantic property a particular read path belongs to
+    fn semantic_prop_for(_path: &str) -> &'static str {
+        Self::semantic_prop()
+    }
     /// classify a differing read path into "contents" or "ctx"
     fn is_ctx_path(path: &str) -> bool {
         path.contains("add") || path.contains("rm")
@@ -790,9 +800,14 @@ impl<'a, E: Engine> Replayer<'a, E> {
             let pc = props_for_contents::<E>(&f);
             let px = props_for_ctx::<E>(&f);
             self.rep.eval(&pc);
-            self.rep.eval(&px);
+            if E::HAS_CTX {
+                self.rep.eval(&px);
+            }
             for (path, r, e) in diffs.iter() {
-                let props = if E::is_ctx_path(path) { px.clone() } else { pc.clone() };
+                let mut props = if E::is_ctx_path(path) { px.clone() } else { pc.clone() };
+                if !E::is_ctx_path(path) {
+                    props[0] = E::semantic_prop_for(path);
+                }
                 let eqm = model_reads.as_ref().map(|_| !mdiffs.contains(path));
                 let verdict = match self.known.listed(&E::kf_name(), path, eqm, pend_now, &self.cur_sigs) {
                     Some(fd) => format!("known:{}", fd.id),
@@ -827,7 +842,8 @@ impl<'a, E: Engine> Replayer<'a, E> {
         if let (Some(op), Some(mop)) = (sys.last_op.as_ref(), ln["op"].as_array().and_then(|a| a.first())) {
             let real_op = E::op_proj(op, &d);
             let mo = E::canon_op(mop);
-            self.judge(&["C07"], "gen.op", real_op, mo, None, h, pend_now, Value::Null);
+            let gp = E::gen_op_props();
+            self.judge(&gp, "gen.op", real_op, mo, None, h, pend_now, Value::Null);
         }
 
         // 4. C01 / C20 across behaviours: equal sets of learned ops => equal reads (causal op
@@ -862,6 +878,11 @@ impl<'a, E: Engine> Replayer<'a, E> {
             }
         }
 
+        if ln["A"]["vec"].as_array().map(|a| !a.is_empty()).unwrap_or(false) {
+            // a local edit judged against the sequential-list model
+            self.rep.eval(&["C13"]);
+            self.rep.nontriv("local_edit_on_concurrent_state");
+        }
         if self.opts.obligations {
             self.obligations(&sys, who, ln, h);
         }
